@@ -255,6 +255,10 @@ func main() {
 		writeCurrent(*out, map[string]interface{}{"kind": "stress", "config": cfg})
 		res := runStress(cfg, pool)
 		runs++
+		if res.fatal {
+			st.ImplFailures = append(st.ImplFailures, res.fails[len(res.fails)-1])
+			break // goroutines of the wallet are stuck: nothing more to learn, and they would distort later runs
+		}
 		for _, f := range res.fails {
 			if len(st.ImplFailures) < 20 {
 				st.ImplFailures = append(st.ImplFailures, f)
